@@ -381,14 +381,14 @@ type c08LH struct {
 	flushLog []basics.Round // successive tracker DB rounds (DB row layout is a function of history + this list)
 
 	// query universe (grows as blocks mention new things)
-	addrs  []basics.Address
-	addrIn map[basics.Address]bool
-	raddrs []basics.Address // addresses asked for resources: A, B, Z + every address that ever had one
+	addrs   []basics.Address
+	addrIn  map[basics.Address]bool
+	raddrs  []basics.Address // addresses asked for resources: A, B, Z + every address that ever had one
 	raddrIn map[basics.Address]bool
-	cidx   []basics.CreatableIndex
-	cidxIn map[basics.CreatableIndex]bool
-	kvKeys []string
-	kvIn   map[string]bool
+	cidx    []basics.CreatableIndex
+	cidxIn  map[basics.CreatableIndex]bool
+	kvKeys  []string
+	kvIn    map[string]bool
 
 	queries int64 // number of lookups issued (evidence)
 
@@ -439,7 +439,7 @@ func c08Open(w *c08World, cfg c08Cfg) (*c08LH, error) {
 		h.addRAddr(a)
 	}
 	h.addCidx(basics.CreatableIndex(w.genBlock.TxnCounter + 900)) // never created
-	h.addKv(apps.MakeBoxKey(w.genBlock.TxnCounter+900, "nope"))    // never created
+	h.addKv(apps.MakeBoxKey(w.genBlock.TxnCounter+900, "nope"))   // never created
 	h.freezeFlushClock()
 	h.enableSmallLRU()
 	return h, nil
@@ -542,7 +542,11 @@ func (h *c08LH) AddBlock(txs ...*txntest.Txn) (enabled bool, err error) {
 			tx.Note = fmt.Sprintf("%d/%d", ev.Round(), i)
 		}
 		tx.FillDefaults(h.w.params)
-		group := []transactions.SignedTxn{tx.SignedTxn()}
+		stxn := tx.SignedTxn()
+		if ad, ok := h.Cur().acct[tx.Sender]; ok && !ad.AuthAddr.IsZero() && ad.AuthAddr != tx.Sender {
+			stxn.AuthAddr = ad.AuthAddr // sender was rekeyed in an earlier block
+		}
+		group := []transactions.SignedTxn{stxn}
 		if err := ev.TestTransactionGroup(group); err != nil {
 			return false, nil
 		}
@@ -928,6 +932,9 @@ func (h *c08LH) Key() string {
 
 func (w *c08World) txPay(from, to basics.Address, amt uint64) *txntest.Txn {
 	return &txntest.Txn{Type: protocol.PaymentTx, Sender: from, Receiver: to, Amount: amt}
+}
+func (w *c08World) txRekey(from, to basics.Address) *txntest.Txn {
+	return &txntest.Txn{Type: protocol.PaymentTx, Sender: from, Receiver: from, Amount: 0, RekeyTo: to}
 }
 func (w *c08World) txClose(from, to basics.Address) *txntest.Txn {
 	return &txntest.Txn{Type: protocol.PaymentTx, Sender: from, Receiver: to, Amount: 0, CloseRemainderTo: to}
